@@ -561,7 +561,36 @@ func bitN(k Kind, args []*Term) *Term {
 	if r := segMerge(k, w, flat); r != nil {
 		return r
 	}
+	if k == KOr && len(flat) == 2 {
+		if r := muxForm(flat[0], flat[1]); r != nil {
+			return r
+		}
+	}
 	return mk(&Term{K: k, W: w, Args: flat})
+}
+
+// muxForm canonicalises the textbook bitwise multiplexer (x & y) | (^x & z) (MD4/MD5/SHA "F"/"Ch",
+// RIPEMD f2/f4) to the equivalent form ((y ^ z) & x) ^ z that optimised implementations use, so
+// that both spellings fold to the same term. Returns nil if a|b is not of that shape.
+func muxForm(a, b *Term) *Term {
+	if a.K != KAnd || b.K != KAnd || len(a.Args) != 2 || len(b.Args) != 2 {
+		return nil
+	}
+	for i := 0; i < 2; i++ {
+		for j := 0; j < 2; j++ {
+			p, q := a.Args[i], b.Args[j]
+			y, z := a.Args[1-i], b.Args[1-j]
+			switch {
+			case q.K == KNot && q.Args[0] == p:
+				// (p & y) | (^p & z)
+				return Xor(And(Xor(y, z), p), z)
+			case p.K == KNot && p.Args[0] == q:
+				// (^q & y) | (q & z)
+				return Xor(And(Xor(z, y), q), y)
+			}
+		}
+	}
+	return nil
 }
 
 func isAllOnes(c *Term) bool {
